@@ -1,8 +1,8 @@
-import FimVerif.Proofs.C10
+import FimVerif.Proofs.Lemmas.C10
 import FimVerif.Proofs.Lemmas.C11Log
 /-!
 C11 ↔ C10: the site inference the ASM path of the collectors relies on (`Authz.inferSite`, `Authz.recordSites`) is what
-C10's model of `Topology.validate()` (`Validate.validate`, theorem `C10.site_recorded`) leaves on the services.
+C10's model of `Topology.validate()` (`Validate.validate`; `Validate.validate_state`, published as `C10.site_recorded`) leaves on the services.
 
 `G10` is a slice graph as C10 and C11 read it together: C10's topology (everything `validate()` reads or writes) plus
 what only the collectors read (node slivers, per-service name / bandwidth / mirrored port, facilities, node interfaces).
@@ -178,7 +178,7 @@ theorem validate10_records_sites (c : Cfg) (g g' : G10) (h : validate10 c g = so
   · rename_i hok
     simp only [Option.some.injEq] at h
     subst h
-    have hs := FimVerif.C10.site_recorded c g.topo hok
+    have hs := validate_state c g.topo hok      -- = C10.site_recorded
     unfold present10 stamp
     simp only [hs, zipWith_map_stamp]
   · cases h
